@@ -123,10 +123,13 @@ type Event struct {
 	Cwd   Path         `json:"cwd"`
 	Inv   string       `json:"inv"`
 	Srt   bool         `json:"srt"` // all listings sorted and duplicate free
+	Mt    string       `json:"mt"`  // digest of every modification time of the base (wrapper runs only)
 }
 
 // Edge is one transition of the bounded state graph emitted by TLC.
 type Edge struct {
+	Wrap string  `json:"wrap"` // wrapper the call goes through ("" = none)
+	Wh   []Call  `json:"wh"`   // calls already made through the wrapper
 	Hist []Call  `json:"hist"`
 	Call Call    `json:"call"`
 	Res  Res     `json:"res"`
